@@ -172,6 +172,11 @@ func (p *provider) CreateScope(ctx context.Context) (Scope, error) {
 	// Track scope
 	verifGate("K_track", p, s)
 	p.scopesMu.Lock()
+	if p.scopes == nil {
+		// The provider was closed while the scope was being created
+		p.scopesMu.Unlock()
+		return nil, abandonScope(s, ErrProviderDisposed)
+	}
 	p.scopes[s] = struct{}{}
 	p.scopesMu.Unlock()
 
